@@ -47,7 +47,7 @@ class PatchVariant(Variant):
 
 
 MECH_TRANSFORMS = ('unparse', 'rename', 'swapeq', 'flipif', 'logging', 'yieldfrom', 'fstring', 'elsereturn', 'ifexp', 'augexpand',
-                   'tmpvar', 'all', 'kwargs', 'cachelocal', 'structconst', 'boolwrap', 'all2')
+                   'tmpvar', 'all', 'kwargs', 'cachelocal', 'structconst', 'boolwrap', 'all2', 'renamepriv')
 
 
 class MechVariant(Variant):
